@@ -80,8 +80,8 @@ pub fn render(rng: &mut Rng, t: &Term, vars: &mut Vec<(String, String)>) -> Stri
     match t.nth(0).as_str() {
         "int" => format!("{}", t.nth(1).as_int()),
         "flt" => t.nth(1).as_str().to_string(),
-        "str" => format!("\"{}\" ", t.nth(1).as_str()),
-        "brc" => format!("{{{}}} ", t.nth(1).as_str()),
+        "str" => format!("\"{}\"{}", t.nth(1).as_str(), pad(rng)),
+        "brc" => format!("{{{}}}{}", t.nth(1).as_str(), pad(rng)),
         "bool" => format!(" {} ", t.nth(1).as_str()),
         "var" => {
             vars.push((t.nth(1).as_str().to_string(), t.nth(2).as_str().to_string()));
